@@ -37,6 +37,15 @@ EXCS = ['ValueError', 'KeyError', 'User', 'Deep', 'BadStr', 'Unicode',
         'SelfCause']
 
 
+def _o_filter(case):
+    shape, scripts, lf, buf, v, mode = case
+    return mode in ('seq', 'j2') and v == 0 and shape in ('A1B2c', 'A2B1i', 'N1B2C1')
+
+
+# `assert` statements vanish under python -O
+ENV_PASSES = [{'name': 'python -O', 'argv': ['-O'], 'env': {}, 'filter': _o_filter}]
+
+
 def _menu():
     out = list(MENU)
     for e in EXCS:
